@@ -1,5 +1,160 @@
-(* C06 — provisional stub *)
-From Kit Require Import C06.Model C06.Spec C06.Check.
-Theorem C06_stub : check_case (CScript 0 []) = 0%Z.
-Proof. exact (eq_refl 0%Z). Qed.
-Print Assumptions C06_stub.
+(* C06 — queue.Processor: live items run exactly once, on time, in order; none stranded; Close clean.
+   Statements only; every proof is [exact <lemma of C06/Proofs*.v>].
+
+   Vocabulary (C06/Model.v): a schedule is a list of events — the locked bodies of Enqueue and
+   Dequeue (atomic: they run under p.lock), the steps of Close, one step of the loop goroutine
+   between two points where it releases the lock / blocks / reads the clock / touches a channel
+   ([EvLoop c pick]: [c] = which ready select case is taken, [pick] = how the heap breaks a tie),
+   the callback returning, wg.Done, and a clock advance.  [run v (init_at t) evs = Some s]: the
+   schedule [evs] is possible from a fresh processor whose clock shows [t] and leads to [s].
+   "for every schedule" = [forall evs]: any number of client goroutines, any interleaving, any
+   length.  [v] is the version of the code: [Original] before the stranding fix, [Fixed] = the
+   current tree.  [executed s] is the log of (item, clock when it was popped for its callback).
+   [fresh_ids evs]: every Enqueue call hands over a distinct object. *)
+From Kit Require Import C06.Model C06.Spec C06.Check C06.ProofsQueue C06.ProofsInv C06.Proofs
+  C06.ProofsProgress C06.ProofsOracle C06.ProofsExamples.
+
+(* Exactly once, and only live instances (both versions of the code).  Whatever happened before
+   ([evs]), one more event [e] either leaves the execution log alone or appends exactly one entry
+   (it, current clock), and then: [it] is the instance that the client calls made so far leave
+   live for its key (it was enqueued and not dequeued or replaced since — [live_after] looks at
+   Enqueue/Dequeue calls only), it has never been executed before, it was at the head of the
+   queue, and the loop is now inside its callback.  The log never contains an id twice. *)
+Theorem C06_exactly_once : forall v t evs s e s',
+  fresh_ids (evs ++ [e]) -> run v (init_at t) evs = Some s -> step v s e = Some s' ->
+  NoDup (map xid (executed s')) /\
+  (executed s' = executed s \/
+   exists it, executed s' = (it, clock s) :: executed s /\
+              In it (live_after evs) /\
+              ~ In (iid it) (map xid (executed s)) /\
+              q_peek (q s) = Some it /\ loop s' = LCallback it).
+Proof. exact exactly_once. Qed.
+Print Assumptions C06_exactly_once.
+
+(* What "live" means, from the calls alone: at most one live instance per key; right after
+   Enqueue(r), r is live and is the only live instance of its key; right after Dequeue(k) no
+   instance of key k is live. *)
+Theorem C06_live_one_per_key : forall evs, NoDup (map ikey (live_after evs)).
+Proof. exact live_after_key. Qed.
+Print Assumptions C06_live_one_per_key.
+
+Theorem C06_live_after_enqueue : forall evs r p it,
+  In r (live_after (evs ++ [EvEnq r p])) /\
+  (In it (live_after (evs ++ [EvEnq r p])) -> ikey it = ikey r -> it = r).
+Proof. exact (fun evs r p it => conj (live_after_enq evs r p) (live_after_replaced evs r p it)). Qed.
+Print Assumptions C06_live_after_enqueue.
+
+Theorem C06_live_after_dequeue : forall evs k p it,
+  In it (live_after (evs ++ [EvDeq k p])) -> ikey it <> k.
+Proof. exact live_after_deq. Qed.
+Print Assumptions C06_live_after_dequeue.
+
+(* Never early (both versions): every logged execution happened less than 0.5 ms before the item's
+   scheduled time, at a clock value the clock had really reached. *)
+Theorem C06_not_early : forall v t evs s it tm,
+  run v (init_at t) evs = Some s -> In (it, tm) (executed s) ->
+  (idue it - half_ms < tm)%Z /\ (tm <= clock s)%Z.
+Proof. exact not_early. Qed.
+Print Assumptions C06_not_early.
+
+(* In scheduled-time order (both versions): the item an event hands to the callback is in the queue
+   at that moment and no entry of the queue at that moment is scheduled earlier. *)
+Theorem C06_in_order : forall v t evs s e s' it tm,
+  run v (init_at t) evs = Some s -> step v s e = Some s' ->
+  executed s' = (it, tm) :: executed s ->
+  tm = clock s /\ In it (q s) /\ forall x, In x (q s) -> (idue it <= idue x)%Z.
+Proof. exact in_order. Qed.
+Print Assumptions C06_in_order.
+
+(* A stale peek always has a reset pending (both versions): while the loop works towards an item
+   [r] it peeked (before/after Now(), before NewTimer(), or asleep on the timer) and [r] is no
+   longer the head of the queue, the reset token is in its channel — the loop will look again. *)
+Theorem C06_stale_wait_has_reset : forall v t evs s r,
+  run v (init_at t) evs = Some s -> peeked (loop s) = Some r ->
+  q_peek (q s) <> Some r -> reset s = true.
+Proof. exact stale_wait_has_reset. Qed.
+Print Assumptions C06_stale_wait_has_reset.
+
+(* ... and a timer the loop sleeps on is never armed for earlier than the item's time. *)
+Theorem C06_timer_not_before_due : forall v t evs s r dl,
+  run v (init_at t) evs = Some s -> loop s = LWaiting r dl -> (idue r <= dl)%Z.
+Proof. exact waiting_deadline. Qed.
+Print Assumptions C06_timer_not_before_due.
+
+(* Close (both versions): from the moment Close has taken the running token — and so in
+   particular once it has returned — there is no loop goroutine, and whatever happens afterwards
+   ([evs'], any events at all) there is still none and the execution log never grows: no callback
+   is running or will run.  Once Close has returned it stays returned and every loop goroutine
+   has finished (wg). *)
+Theorem C06_close : forall v t evs s evs' s',
+  run v (init_at t) evs = Some s -> close_holds_token s -> run v s evs' = Some s' ->
+  loop s' = LNone /\ executed s' = executed s /\ close_holds_token s' /\
+  (close s = CReturned -> close s' = CReturned /\ exiting s' = 0%nat).
+Proof. exact close_final. Qed.
+Print Assumptions C06_close.
+
+(* No stranding, code after the fix: in every reachable state in which Close has not been called
+   and the queue is not empty, a loop goroutine exists and is on a path that looks at the queue
+   again (it is not about to exit). *)
+Theorem C06_no_stranding : forall t evs s,
+  run Fixed (init_at t) evs = Some s -> stopped s = false -> q s <> [] -> serving s = true.
+Proof. exact no_stranding. Qed.
+Print Assumptions C06_no_stranding.
+
+(* The same up to the instant Close closes the stop channel, and the running token is held. *)
+Theorem C06_no_stranding_until_stop_signal : forall t evs s,
+  run Fixed (init_at t) evs = Some s -> stopch s = false -> q s <> [] ->
+  serving s = true /\ running s = true.
+Proof. exact no_stranding_strong. Qed.
+Print Assumptions C06_no_stranding_until_stop_signal.
+
+(* Stranding, code before the fix: there is a schedule (Enqueue a; the loop runs a and sees the
+   queue empty; Enqueue b lands before the loop has released its running token; the loop
+   releases it and exits) after which b is live, due and queued, Close was never called, no loop
+   serves the queue, no internal event is enabled, and b stays queued and un-executed however
+   long one waits (any sequence of internal events and clock advances). *)
+Theorem C06_stranding_refuted :
+  exists evs s b,
+    fresh_ids evs /\ run Original init evs = Some s /\
+    stopped s = false /\ In b (q s) /\ In b (live_after evs) /\ (idue b <= clock s)%Z /\
+    serving s = false /\
+    (forall e, internal e = true -> step Original s e = None) /\
+    (forall evs' s', Forall quiet_event evs' -> run Original s evs' = Some s' ->
+       In b (q s') /\ ~ In b (map fst (executed s')) /\ loop s' = LNone).
+Proof. exact stranding_refuted. Qed.
+Print Assumptions C06_stranding_refuted.
+
+(* Progress 1 (both versions): every internal event (a loop step, a timer delivery, the callback
+   returning, wg.Done, a step of Close) strictly decreases a natural-number measure of the state,
+   so internal events alone cannot go on forever: a run of them is no longer than the measure. *)
+Theorem C06_progress_measure : forall v s e s',
+  internal e = true -> step v s e = Some s' -> (measure s' < measure s)%nat.
+Proof. exact measure_decreases. Qed.
+Print Assumptions C06_progress_measure.
+
+Theorem C06_progress_bounded : forall v evs s s',
+  Forall (fun e => internal e = true) evs -> run v s evs = Some s' ->
+  (length evs + measure s' <= measure s)%nat.
+Proof. exact internal_runs_bounded. Qed.
+Print Assumptions C06_progress_bounded.
+
+(* Progress 2: in a reachable state where no internal event is enabled, a Close that was called
+   has returned, no goroutine is on its way out, and either there is no loop — and then, in the
+   code after the fix and unless the stop channel is closed, the queue is empty — or the loop
+   sleeps on a timer that was armed for the current head of the queue, not before its time, with
+   no reset or stop pending; it wakes as soon as the clock reaches that deadline. *)
+Theorem C06_rest : forall v t evs s,
+  run v (init_at t) evs = Some s -> at_rest v s ->
+  (close s = CNone \/ close s = CReturned) /\ exiting s = 0%nat /\
+  ((loop s = LNone /\ (v = Fixed -> stopch s = false -> q s = [])) \/
+   (exists r dl, loop s = LWaiting r dl /\ q_peek (q s) = Some r /\ reset s = false /\
+                 stopch s = false /\ (clock s < dl)%Z /\ (idue r <= dl)%Z)).
+Proof. exact rest_shape. Qed.
+Print Assumptions C06_rest.
+
+(* The boolean oracle evaluated on what the implementation was observed to do decides the
+   specification of Spec.v (exactly once, not early, in order, removed items never run, due live
+   items have run whenever the processor is at rest, nothing after Close returned). *)
+Theorem C06_oracle_sound : forall c0 h, oracle c0 h = true <-> spec c0 h.
+Proof. exact oracle_sound. Qed.
+Print Assumptions C06_oracle_sound.
